@@ -868,6 +868,11 @@ pub fn apply_fault(t: &mut SupplyTrace, plan: &Plan, f: F, r: &mut Rng, prefer_s
                         let (s, _) = refmodel::rfc3339_instant(old.as_str().unwrap_or("")).unwrap_or((0, 0));
                         let d = *r.pick(&[1i64, -1, 60, 86_400, 86_400 * 366, -86_400]);
                         json!(refmodel::render_rfc3339((s + d).clamp(0, 253_402_300_799), None, ""))
+                    } else if old.is_string() && r.chance(1, 3) {
+                        // a near-collision: another spelling that a normalising reader or writer might
+                        // fold onto the original (trailing slash, "./", letter case, white space, ...)
+                        let nc = crate::ceremony::near_collisions(old.as_str().unwrap_or(""));
+                        json!(r.pick(&nc).clone())
                     } else {
                         mutate_leaf(r, &old)
                     };
